@@ -214,3 +214,16 @@ func simplifyCmd(c core.Cmd) []core.Cmd {
 	}
 	return out
 }
+
+// TestLockChild is the child-process side of the multi-process SQLite profile.
+func TestLockChild(t *testing.T) {
+	db := os.Getenv("VERIF_LOCK_CHILD")
+	if db == "" {
+		t.Skip("not a child")
+	}
+	if err := RunChild(db, os.Stdin, os.Stdout); err != nil {
+		fmt.Fprintln(os.Stderr, "child:", err)
+		os.Exit(1)
+	}
+	os.Exit(0)
+}
